@@ -41,7 +41,8 @@ where
 
     let cap_height = params.config.cap_height;
     for cap in commit_phase_merkle_caps {
-        ensure!(cap.height() == cap_height);
+        // `height()` panics for a length that is not a power of two: compare lengths instead.
+        ensure!(cap.len() == 1 << cap_height);
     }
 
     for query_round in query_round_proofs {
